@@ -1,5 +1,5 @@
 /-
-Lemmas about the emission switch of `Model.EditDoc` (for C07_removed_content).
+Lemmas about the emission switch of `EditModel.EditDoc` (for C07_removed_content).
 -/
 import LolHtml.Model.EditDoc
 
